@@ -35,6 +35,8 @@ Ops(s) ==
   \cup {[op |-> "fill", tgt |-> t, v |-> v] : t \in Names, v \in Vals \ {0}}
   \cup {[op |-> "clone_to_other", tgt |-> t] : t \in Names}
   \cup {[op |-> "clone_from", tgt |-> t] : t \in Names}
+  \cup {[op |-> oo, tgt |-> "a", i |-> ij[1], j |-> ij[2], v |-> 1] :
+            oo \in {"get_oob", "set_oob"}, ij \in {<<1, C + 1>>, <<MaxRows + 1, 1>>, <<2, C + 1>>}}
   \cup {[op |-> "iter_ends", tgt |-> "a", pat |-> p, mutable |-> mu] :
             p \in {<< <<"b", 0>>, <<"f", 0>>, <<"b", 0>>, <<"f", 0>> >>, << <<"f", 0>>, <<"b", 0>>, <<"b", 0>> >>,
                    << <<"b", 1>>, <<"f", 0>>, <<"b", 0>> >>, << <<"f", 1>>, <<"b", 1>> >>, << <<"b", 2>>, <<"b", 0>> >>}, mu \in BOOLEAN}
@@ -81,7 +83,7 @@ Resize  == \E o \in Ops(st) : o.op = "resize" /\ Do(o)
 SetC    == \E o \in Ops(st) : o.op = "set" /\ Do(o)
 Fill    == \E o \in Ops(st) : o.op = "fill" /\ Do(o)
 CloneOp == \E o \in Ops(st) : o.op \in {"clone_to_other", "clone_from"} /\ Do(o)
-Observe == \E o \in Ops(st) : o.op \in {"iter", "iter_rev", "eq", "iter_mut_bump", "reserve", "iter_ends"} /\ Do(o)
+Observe == \E o \in Ops(st) : o.op \in {"iter", "iter_rev", "eq", "iter_mut_bump", "reserve", "iter_ends", "get_oob", "set_oob"} /\ Do(o)
 
 Next == New \/ Resize \/ SetC \/ Fill \/ CloneOp \/ Observe
 
